@@ -1084,7 +1084,15 @@ class SymExec:
         # identity / equality against None etc. for values that are known objects
         if op in ('is', 'is not', '==', '!=') and (is_const(fl) or is_const(fr_)):
             other, c = (fl, fr_) if is_const(fr_) else (fr_, fl)
-            if isinstance(other, tuple) and other and other[0] in ('list', 'dict', 'new', 'closure', 'sym', 'symlist', 'tuple', 'fstr'):
+            if isinstance(other, tuple) and other and other[0] == 'sym':
+                kinds_ = other[4] if len(other) > 4 else ('op',)
+                if c[1] is None and 'none' not in kinds_ and 'unknown' not in kinds_:
+                    return ('const', op in ('is not', '!='))
+                if c[1] is None and kinds_ == ('none',):
+                    return ('const', op in ('is', '=='))
+                if isinstance(c[1], (str, bool, int)) and c[1] is not None and set(kinds_) <= {'op', 'none', 'list'}:
+                    return ('const', op in ('is not', '!='))
+            elif isinstance(other, tuple) and other and other[0] in ('list', 'dict', 'new', 'closure', 'symlist', 'tuple', 'fstr'):
                 if c[1] is None or c[1] is Ellipsis or isinstance(c[1], (str, bool, int)):
                     if other[0] == 'tuple' and isinstance(c[1], tuple):
                         pass
@@ -1125,8 +1133,13 @@ class SymExec:
             if t[0] == 'not':
                 k = self.known_truth(t[1])
                 return None if k is None else not k
-            if t[0] in ('new', 'closure', 'sym', 'ref'):
+            if t[0] in ('new', 'closure', 'ref'):
                 return True
+            if t[0] == 'sym' and len(t) > 4:
+                if t[4] == ('op',):
+                    return True
+                if t[4] == ('none',):
+                    return False
             if t[0] == 'tuple':
                 return len(t) > 1
             if t[0] == 'list':
@@ -1454,7 +1467,7 @@ class SymExec:
         elif isinstance(fv, tuple) and fv and fv[0] == 'tok':
             kind = ('builtin', 'str')
         elif isinstance(fv, tuple) and fv and fv[0] == 'sym':
-            kind = ('cls', fv[3]) if len(fv) > 3 and fv[3] else None
+            kind = ('cls', fv[3]) if len(fv) > 4 and fv[3] and fv[4] == ('op',) else None
         elif isinstance(fv, tuple) and fv and fv[0] == 'new':
             kind = ('cls', fv[1])
         elif is_const(fv):
